@@ -793,4 +793,184 @@ example :
 example : setterAxes 3 [(7 : Int)] = some [7,7,7] ∧ setterAxes 3 [(1 : Int), 2] = some [1, 2] ∧ broadcastAxes 3 [(1 : Int), 2] = none ∧
     setterAxes 3 ([] : List Int) = none ∧ setterAxes 2 [(1 : Int), 2, 3] = some [] ∧ setterAxes 4 [(1 : Int), 2] = some [1,1,2,2] := by decide
 
+/-! ## deepen6: compositions, identities, minimality, resampling round trips -/
+
+/-- **`adjust_box` with the full box is the identity** on one axis: everything kept, nothing added -/
+theorem adjustAxis_full_box (n : Nat) :
+    let p := adjustAxis n 0 n
+    p.src = 0 ∧ p.len = n ∧ p.left = 0 ∧ p.right = 0 ∧ p.newLen = n ∧ ∀ j, j < n → p.srcOf j = some j := by
+  obtain ⟨f1, f2, _⟩ := adjustAxis_fields n 0 n
+  obtain ⟨f2, f3, f4⟩ := f2 (by omega)
+  simp only
+  refine ⟨by omega, by omega, by omega, by omega, by unfold AxisPlan.newLen; omega, ?_⟩
+  intro j hj
+  unfold AxisPlan.srcOf
+  rw [if_pos (by omega)]
+  congr 1; omega
+
+/-- **`pad` to the present extent hands `adjust_box` the full box** (centred or appended): zero widths = identity -/
+theorem pad_zero_width (center : Bool) (n : Nat) : padBoxAxis center n n = (0, (n : Int)) := by
+  cases center <;> simp [padBoxAxis]
+
+/-- the full box leaves the origin and the rate of every axis alone -/
+theorem adjustFrame_zero_start {β : Type} [CommRing β] (o r : β) (stop : Int) :
+    adjustFrame [(o, r)] [(0, stop)] = [(o, r)] := by
+  simp [adjustFrame]
+
+/-- **crop then crop = crop by the composed box** (one axis): the plan of the second crop on the result of the
+first is the plan of the box shifted by the first start; nothing is padded -/
+theorem adjustAxis_crop_crop (n N : Nat) (s1 e1 s2 e2 : Int) (h1 : 0 ≤ s1) (h2 : s1 ≤ e1) (h3 : e1 ≤ n)
+    (h4 : 0 ≤ s2) (h5 : s2 ≤ e2) (h6 : e2 ≤ e1 - s1) (hN : N = (adjustAxis n s1 e1).newLen) :
+    (adjustAxis n (s1 + s2) (s1 + e2)).src = (adjustAxis n s1 e1).src + (adjustAxis N s2 e2).src ∧
+      (adjustAxis n (s1 + s2) (s1 + e2)).len = (adjustAxis N s2 e2).len ∧
+      (adjustAxis n (s1 + s2) (s1 + e2)).left = 0 ∧ (adjustAxis n (s1 + s2) (s1 + e2)).right = 0 ∧
+      (adjustAxis N s2 e2).left = 0 ∧ (adjustAxis N s2 e2).right = 0 := by
+  have hn1 := adjustAxis_newLen n s1 e1 (by omega)
+  rw [← hN] at hn1
+  have a := (adjustAxis_fields n s1 e1).2.1 (by omega)
+  have b0 := (adjustAxis_fields N s2 e2).1
+  have b := (adjustAxis_fields N s2 e2).2.1 (by omega)
+  have c0 := (adjustAxis_fields n (s1 + s2) (s1 + e2)).1
+  have c := (adjustAxis_fields n (s1 + s2) (s1 + e2)).2.1 (by omega)
+  clear hN
+  generalize adjustAxis n s1 e1 = p1 at *
+  generalize adjustAxis N s2 e2 = p2 at *
+  generalize adjustAxis n (s1 + s2) (s1 + e2) = p3 at *
+  omega
+
+/-- origins compose: shifting by `s1` and then by `s2` records the origin of the composed box -/
+theorem adjustBox_origin_compose {β : Type} [CommRing β] (origin rate : β) (s1 s2 : Int) :
+    (origin + (s1 : β) * rate) + (s2 : β) * rate = origin + ((s1 + s2 : Int) : β) * rate := by
+  push_cast; ring
+
+/-- **extend then crop back = identity** (one axis): after extending by a box containing the data, the box
+`(-start, n - start)` selects exactly the old voxels, in order, and the origin returns to the old one -/
+theorem adjustAxis_extend_crop_back (n : Nat) (s e : Int) (hs : s ≤ 0) (he : (n : Int) ≤ e) :
+    let p1 := adjustAxis n s e
+    let p2 := adjustAxis p1.newLen (-s) (n - s)
+    p2.newLen = n ∧ p2.left = 0 ∧ p2.right = 0 ∧
+      ∀ j, j < n → (p2.srcOf j).bind p1.srcOf = some j := by
+  have hn1 := adjustAxis_newLen n s e (by omega)
+  obtain ⟨a1, a2, _⟩ := adjustAxis_fields n s e
+  obtain ⟨a2, a3, a4⟩ := a2 (by omega)
+  obtain ⟨b1, b2, _⟩ := adjustAxis_fields (adjustAxis n s e).newLen (-s) (n - s)
+  obtain ⟨b2, b3, b4⟩ := b2 (by omega)
+  simp only
+  refine ⟨by unfold AxisPlan.newLen at *; omega, by omega, by unfold AxisPlan.newLen at *; omega, ?_⟩
+  intro j hj
+  unfold AxisPlan.newLen at *
+  unfold AxisPlan.srcOf
+  rw [if_pos (by omega)]
+  simp only [Option.bind_some]
+  rw [if_pos (by omega)]
+  congr 1; omega
+
+/-- the origin comes back after extending by `start` and cropping by `-start` -/
+theorem adjustBox_origin_round_trip {β : Type} [CommRing β] (origin rate : β) (s : Int) :
+    (origin + (s : β) * rate) + ((-s : Int) : β) * rate = origin := by
+  push_cast; ring
+
+/-- **physical coordinate through two box operations**: new index `j` after boxes starting at `s1` then `s2`
+sits at the coordinate of old index `j + s2 + s1` -/
+theorem adjustBox_physical_compose {β : Type} [CommRing β] (origin rate : β) (s1 s2 j : Int) :
+    ((origin + (s1 : β) * rate) + (s2 : β) * rate) + (j : β) * rate = origin + ((j + s2 + s1 : Int) : β) * rate := by
+  push_cast; ring
+
+/-- **minimality of the trim box** (margin 0): on every axis the first kept slab and the last kept slab each
+contain a voxel above the cut-off, so no face can be moved inwards -/
+theorem trimAxis_tight {α : Type} [LT α] [DecidableLT α] (a : Arr α) (cutoff : α) (ax n : Nat) (b : Int × Int)
+    (h : trimAxis a cutoff 0 ax n = some b) :
+    0 ≤ b.1 ∧ b.1 < b.2 ∧ b.2 ≤ n ∧ axisHit a cutoff ax b.1.toNat = true ∧ axisHit a cutoff ax (b.2 - 1).toNat = true ∧
+      ∀ i : Nat, i < n → axisHit a cutoff ax i = true → b.1 ≤ i ∧ (i : Int) < b.2 := by
+  unfold trimAxis at h
+  cases hf : firstHit (axisHit a cutoff ax) n with
+  | none => rw [hf] at h; simp at h
+  | some f =>
+    cases hl : lastHit (axisHit a cutoff ax) n with
+    | none => rw [hf, hl] at h; simp at h
+    | some l =>
+      rw [hf, hl] at h
+      simp only [Option.some.injEq] at h
+      subst h
+      obtain ⟨l1, l2⟩ := lastHit_some _ _ _ hl
+      unfold firstHit at hf
+      obtain ⟨f1, f2, f3⟩ := firstHitFrom_some _ _ _ _ hf
+      obtain ⟨s, e1, _, e3, _⟩ := firstHitFrom_spec (axisHit a cutoff ax) n 0 l (by omega) (by omega) l2
+      rw [hf] at e1; simp only [Option.some.injEq] at e1
+      have q1 : (max (0 : Int) ((f : Int) - 0)).toNat = f := by omega
+      have q2 : (min (n : Int) ((l : Int) + 0 + 1) - 1).toNat = l := by omega
+      simp only
+      refine ⟨by omega, by omega, by omega, by rw [q1]; exact f3, by rw [q2]; exact l2, ?_⟩
+      intro i hi hp
+      obtain ⟨s', e1', _, e3', _⟩ := firstHitFrom_spec (axisHit a cutoff ax) n 0 i (by omega) (by omega) hp
+      obtain ⟨l', g1, g2, _, _⟩ := lastHit_spec (axisHit a cutoff ax) n i hi hp
+      rw [hf] at e1'; rw [hl] at g1
+      simp only [Option.some.injEq] at e1' g1
+      omega
+
+/-- **a larger margin gives a larger trim box** (one axis), and both stay inside the data -/
+theorem trimAxis_margin_mono {α : Type} [LT α] [DecidableLT α] (a : Arr α) (cutoff : α) (m1 m2 : Int) (ax n : Nat)
+    (b1 b2 : Int × Int) (hm : m1 ≤ m2) (h1 : trimAxis a cutoff m1 ax n = some b1)
+    (h2 : trimAxis a cutoff m2 ax n = some b2) : b2.1 ≤ b1.1 ∧ b1.2 ≤ b2.2 ∧ 0 ≤ b2.1 ∧ b2.2 ≤ n := by
+  unfold trimAxis at h1 h2
+  cases hf : firstHit (axisHit a cutoff ax) n with
+  | none => rw [hf] at h1; simp at h1
+  | some f =>
+    cases hl : lastHit (axisHit a cutoff ax) n with
+    | none => rw [hf, hl] at h1; simp at h1
+    | some l =>
+      rw [hf, hl] at h1 h2
+      simp only [Option.some.injEq] at h1 h2
+      subst h1; subst h2
+      simp only
+      omega
+
+/-- **equal rates keep the extent** (ratio 1) -/
+theorem resample_same_rate (n a : Nat) (ha : 0 < a) : resampleLen n a a = n :=
+  resampleLen_exact n a a ha n rfl
+
+/-- **resampling there and back** with inverse ratios returns the original extent when the ratio divides -/
+theorem resample_round_trip (n a b k : Nat) (ha : 0 < a) (hb : 0 < b) (h : n * a = k * b) :
+    resampleLen (resampleLen n a b) b a = n := by
+  rw [resampleLen_exact n a b hb k h]
+  exact resampleLen_exact k b a ha n h.symm
+
+/-- n-D: resampling to the rate already recorded returns the same extents, origin and rate -/
+theorem resample_same_rate_geo {β : Type} (g : Geo β) (hpos : ∀ r ∈ g.rate, 0 < r) (hlen : g.rate.length = g.shape.length) :
+    resample g g.rate = g := by
+  obtain ⟨shape, origin, rate⟩ := g
+  simp only [resample, Geo.mk.injEq, and_true]
+  simp only at hpos hlen
+  induction shape generalizing rate with
+  | nil => simp
+  | cons n ns ih =>
+    cases rate with
+    | nil => simp at hlen
+    | cons r rs =>
+      simp only [List.zip_cons_cons, List.zipWith_cons_cons, List.cons.injEq]
+      refine ⟨resampleLen_exact n r r (hpos r (by simp)) n rfl, ih rs (fun x hx => hpos x (by simp [hx])) (by simpa using hlen)⟩
+
+/-- **total mass is conserved by extending with pad value 0** (any box that contains the whole array) -/
+theorem mass_extend_zero (a : Arr Int) (hwf : a.data.size = prodL a.shape) (box : Box)
+    (hlen : box.length = a.shape.length)
+    (hsupp : ∀ s, inShape a.shape s = true →
+      List.Forall₂ (fun (x : Nat) (b : Int × Int) => b.1 ≤ (x : Int) ∧ (x : Int) < b.2) s box)
+    (hstop : ∀ b ∈ box, 0 ≤ b.2) :
+    comDen (adjustData a box 0) none = comDen a none :=
+  (com_adjust_covariant a hwf box 0 none hlen hstop rfl (fun s hs _ => hsupp s hs)).1
+
+/-- **total mass is conserved by cropping to a box that contains the support** (every non-zero voxel) -/
+theorem mass_crop_support (a : Arr Int) (hwf : a.data.size = prodL a.shape) (box : Box) (pad : Int)
+    (hlen : box.length = a.shape.length) (hstop : ∀ b ∈ box, 0 ≤ b.2) (hpad : pad = 0)
+    (hsupp : ∀ s, inShape a.shape s = true → a.getD s 0 ≠ 0 →
+      List.Forall₂ (fun (x : Nat) (b : Int × Int) => b.1 ≤ (x : Int) ∧ (x : Int) < b.2) s box) :
+    comDen (adjustData a box pad) none = comDen a none :=
+  (com_adjust_covariant a hwf box pad none hlen hstop (by subst hpad; rfl) (fun s hs hw => hsupp s hs hw)).1
+
+/-- hypotheses of the deepen6 theorems are satisfiable -/
+example : (0 : Int) ≤ 2 ∧ (2 : Int) ≤ 7 ∧ (7 : Int) ≤ (8 : Nat) ∧ (0 : Int) ≤ 1 ∧ (1 : Int) ≤ 4 ∧ (4 : Int) ≤ 7 - 2 ∧
+    (adjustAxis 8 3 6).src = (adjustAxis 8 2 7).src + (adjustAxis 5 1 4).src ∧ 5 = (adjustAxis 8 2 7).newLen ∧
+    resampleLen 6 2 3 = 4 ∧ resampleLen 4 3 2 = 6 ∧ 6 * 2 = 4 * 3 := by decide
+
+
 end Pm.C15
